@@ -40,7 +40,8 @@ pub enum Stray {
 
 #[derive(Clone, Debug, PartialEq, Eq, Hash, Serialize, Deserialize)]
 pub struct Scenario {
-    pub k: u8,
+    /// slots of the receiver memory (2..=8, 128, 256)
+    pub k: u16,
     pub trains: Vec<TrainSpec>,
     /// order-preserving merge: sequence of train indices
     pub merge: Vec<u8>,
@@ -90,11 +91,13 @@ fn train_exts(t: &TrainSpec) -> Vec<ExtSpec> {
     }
 }
 
-fn alias_id(id: u8, k: u8) -> u8 {
-    if id as u16 + k as u16 <= 255 {
-        id + k
+fn alias_id(id: u8, k: u16) -> u8 {
+    if id as u16 + k <= 255 {
+        (id as u16 + k) as u8
+    } else if id as u16 >= k {
+        (id as u16 - k) as u8
     } else {
-        id - k
+        unreachable!("no aliasing id exists with {} slots (callers map aliasing strays to unknown-id strays)", k)
     }
 }
 
@@ -158,6 +161,17 @@ fn check_scenario(sc: &Scenario, st: &mut Stats) -> Result<(), String> {
     for (pos, s) in strays {
         let at = (idx16(pos, base_len + 1) + inserted).min(seq.len());
         let tr = |t: u8| &sc.trains[t as usize % sc.trains.len()];
+        // with 256 slots no id aliases another: the aliasing strays become strays of an id nobody uses
+        let s = if k > 255 {
+            match s {
+                Stray::InterAlias(_) => Stray::InterUnknown,
+                Stray::EndAlias(_) => Stray::EndUnknown,
+                Stray::ClaimAlias(_) => Stray::CompleteLabel,
+                o => o,
+            }
+        } else {
+            s
+        };
         let items: Vec<Item> = match s {
             Stray::InterAlias(t) => vec![Item { bytes: s0(false, false, alias_id(tr(t).id, sc.k), vec![0xAB; 5], None), role: Role::StrayPkt }],
             Stray::EndAlias(t) => vec![Item { bytes: s0(false, true, alias_id(tr(t).id, sc.k), vec![0xCD; 3], Some(0x0BAD_F00D)), role: Role::StrayPkt }],
@@ -392,7 +406,7 @@ fn all_merges(counts: &[usize]) -> Vec<Vec<u8>> {
 fn enum_table(t: Tier) -> &'static Vec<Scenario> {
     static Q: OnceLock<Vec<Scenario>> = OnceLock::new();
     static T: OnceLock<Vec<Scenario>> = OnceLock::new();
-    let build = |ks: &[u8]| {
+    let build = |ks: &[u16]| {
         let configs: Vec<Vec<usize>> = vec![vec![2, 2], vec![2, 3], vec![3, 3], vec![2, 4], vec![3, 4], vec![4, 4], vec![2, 2, 2], vec![2, 2, 3], vec![2, 3, 3], vec![3, 3, 3]];
         let labs = [Lab::Six([1, 2, 3, 4, 5, 6]), Lab::Three([3, 2, 1]), Lab::Broadcast];
         let mut out = vec![];
@@ -450,11 +464,15 @@ fn desc_enum(t: Tier, i: u64) -> Value {
 // ---- enumerated: every pair of fragment ids ------------------------------------------------------------
 
 /// two trains of three fragments on ids (a, b), alternating, one stray end fragment on an id aliasing
-/// train 0 in the middle; memories of 128 and of 5 slots (pairs in different slots)
+/// train 0 in the middle; memories of 128, 5 and 256 slots (pairs in different slots)
 fn pair_case(i: u64) -> Option<Scenario> {
     let (a, b, shape) = ((i % 256) as u8, ((i / 256) % 256) as u8, i / 65536);
-    let k: u8 = if shape == 0 { 128 } else { 5 };
-    if a % k == b % k {
+    let k: u16 = match shape {
+        0 => 128,
+        1 => 5,
+        _ => 256,
+    };
+    if a as u16 % k == b as u16 % k {
         return None;
     }
     let t = |id: u8, lab: Lab, n: u32| TrainSpec { id, lab, ptype: 0x0800 + id as u16, pdu: Pdu { len: 20 + n + id as u32 % 7, seed: 60 + id as u32 }, cuts: vec![5, 6], ext: id % 2 == 1 };
@@ -494,17 +512,18 @@ fn gen_strategy(t: Tier) -> BoxedStrategy<Scenario> {
         1 => (0u8..4).prop_map(Stray::RestartSame),
         1 => (0u8..4).prop_map(Stray::ClaimAlias),
     ];
-    bx((2u8..=8, prop::collection::vec(train, 2..=4), any::<[u8; 4]>(), prop::collection::vec((any::<u16>(), stray), 0..=6), (any::<u8>(), any::<bool>(), 0u8..=2))
+    bx((prop_oneof![8 => 2u16..=8, 1 => Just(256u16), 1 => Just(128u16)], prop::collection::vec(train, 2..=4), any::<[u8; 4]>(), prop::collection::vec((any::<u16>(), stray), 0..=6), (any::<u8>(), any::<bool>(), 0u8..=2))
         .prop_flat_map(|(k, trains, idsel, strays, (reuse_mask, as_frame, spare))| {
             let n = trains.len().min(k as usize);
             // ids with pairwise distinct residues modulo k: residue r_i distinct, id = r_i + k * m_i
-            let mut residues: Vec<u8> = (0..k).collect();
+            let mut residues: Vec<u16> = (0..k).collect();
             let mut ids = vec![];
             for i in 0..n {
-                let j = idsel[i] as usize % residues.len();
+                // with many slots prefer the two ends of the id range (0, 1, .. and .., 254, 255)
+                let j = if k > 8 { [0usize, residues.len() - 1, idsel[i] as usize % residues.len()][i.min(2)].min(residues.len() - 1) } else { idsel[i] as usize % residues.len() };
                 let r = residues.remove(j);
-                let mult = (idsel[i] / 16) as u16 % ((255 - r as u16) / k as u16 + 1);
-                ids.push((r as u16 + k as u16 * mult) as u8);
+                let mult = (idsel[i] / 16) as u16 % ((255 - r) / k + 1);
+                ids.push((r + k * mult) as u8);
             }
             let specs: Vec<TrainSpec> = trains
                 .into_iter()
@@ -543,8 +562,8 @@ pub fn property() -> Property {
             }),
             Box::new(EnumPart {
                 name: "every-pair-of-frag-ids",
-                rule: "two alternating 3-fragment trains (one with extensions) on every ordered pair of fragment ids that do not share a slot, in memories of 128 and of 5 slots, with a stray end fragment on an id aliasing the first train after the third packet, every other case walked as one frame; exhaustive over the pairs; same slot-ownership oracle",
-                size: |_| 2 * 65536,
+                rule: "two alternating 3-fragment trains (one with extensions) on every ordered pair of fragment ids that do not share a slot, in memories of 128, 5 and 256 slots, with a stray end fragment on an id aliasing the first train after the third packet, every other case walked as one frame; exhaustive over the pairs; same slot-ownership oracle",
+                size: |_| 3 * 65536,
                 exhaustive: |_| true,
                 check: check_pair,
                 describe: |_t, i| pair_case(i).map(|s| serde_json::to_value(s).unwrap_or(Value::Null)).unwrap_or(Value::Null),
